@@ -357,16 +357,8 @@ def r10_filters_stateless(ctx):
                 continue
             n += 1
             ctx.touch(ROWS, f"{c.name}.{name}")
-            stores = []
-            for x in ast.walk(fn):
-                if isinstance(x, (ast.Assign, ast.AugAssign)):
-                    for t in (x.targets if isinstance(x, ast.Assign) else [x.target]):
-                        for tt in (t.elts if isinstance(t, (ast.Tuple, ast.List)) else [t]):
-                            b = tt
-                            while isinstance(b, ast.Subscript):
-                                b = b.value
-                            if is_self_attr(b):
-                                stores.append((b.attr, x.lineno))
+            from ..util import self_state_stores
+            stores = self_state_stores(fn, c.methods.values())
             ctx.ob("C13.R10", ROWS, f"{c.name}.{name}", fn, "the method stores nothing on the filter object", not stores, detail={"stores": stores}, stmt=f"{c.name}.{name} stateless")
     ctx.floor("C13.R10", "row filter methods", n, 6)
 
